@@ -64,3 +64,25 @@ func init() {
 		replayWriteFamily(checkC08Case)(ctx, rep, w)
 	}}
 }
+
+func init() {
+	Registry["C17"] = Monitor{Run: RunC17, Replay: func(ctx *core.Ctx, rep *core.Report, w map[string]any) { RunC17(ctx, rep) }}
+}
+
+func replayIndexed(mk func(ctx *core.Ctx, i int) *Case, check func(c *Case, rep *core.Report)) func(ctx *core.Ctx, rep *core.Report, w map[string]any) {
+	return func(ctx *core.Ctx, rep *core.Report, w map[string]any) {
+		idx, ok := witnessInt(w, "case")
+		if !ok {
+			rep.Inconclusive("witness has no case index")
+			return
+		}
+		c := mk(ctx, idx)
+		fmt.Println("replaying", c.Describe())
+		rep.Eval(1)
+		check(c, rep)
+	}
+}
+
+func init() {
+	Registry["C02"] = Monitor{Run: RunC02, Replay: replayIndexed(c02Case, checkC02Case)}
+}
